@@ -36,8 +36,39 @@ def delegation(ctx, meths, rule='C14.D1'):
                       'Grid no longer derives from MutableSequence', file=F, line=m.cls(MOD, 'Grid').lineno,
                       engine='E9')
     over = [x for x in MIXINS if x in meths]
-    if over:
-        ctx.error(rule, 'Grid overrides mixin method(s) %s; their conformance to the list model is not analysed' % over)
+    # read-only mixins answered from the id index: the index keeps ONE row per str(id), the list may hold several
+    READ_FORMS = {'__contains__': ('{x} in {s}._row', 'any((v is {x} or v == {x} for v in {s}._row))'),
+                  'index': ('{s}._row.index({x})', '{s}._row.index(*args, **kwargs)', '{s}._row.index({x}, *args)'),
+                  'count': ('{s}._row.count({x})',),
+                  '__iter__': ('iter({s}._row)',), '__reversed__': ('reversed({s}._row)',)}
+    still = []
+    for name in over:
+        fn = meths[name]
+        if name not in READ_FORMS:
+            still.append(name)
+            continue
+        s_ = _self(fn)
+        x_ = fn.args.args[1].arg if len(fn.args.args) > 1 else ''
+        forms = [f.format(s=s_, x=x_) for f in READ_FORMS[name]]
+        rets = [r for r in walk_no_nested(fn) if isinstance(r, ast.Return) and r.value is not None]
+        via_index = [r for r in rets if '_index' in norm(r.value) or '%s.get(' % s_ in norm(r.value)
+                     or any(isinstance(c, ast.Subscript) and norm(c.value) == s_ for c in ast.walk(r.value))]
+        if via_index:
+            r = via_index[0]
+            ctx.violation(rule, '%s::Grid.%s' % (F, name), norm(r),
+                          'g.append({"id": 1, "v": "a"}); g.append({"id": 1, "v": "b"}): the id index keeps one row per id, so '
+                          '`%s` answers for only one of the two rows -- a plain list answers for both'
+                          % ('{"id": 1, "v": "a"} in g' if name == '__contains__' else 'g.%s(row)' % name),
+                          'Grid.%s is answered from the id index instead of the row list' % name, file=F, line=r.lineno,
+                          engine='E9')
+        elif rets and all(norm(r.value) in forms for r in rets):
+            ctx.ob(rule, 'Grid.%s is the list operation on _row' % name, True, '%s:%d' % (F, fn.lineno))
+        else:
+            still.append(name)
+    if still:
+        ctx.error(rule, 'Grid overrides mixin method(s) %s; their conformance to the list model is not analysed' % still)
+    elif over:
+        pass
     else:
         ctx.ob(rule, 'mixin methods %s are inherited (defined by the five primitives)' % ', '.join(MIXINS), True)
 
